@@ -301,7 +301,7 @@ def large_enumerate(tier, shard, nshards):
     from ..runner import shard_iter
 
     def gen():
-        for size in (65535, 65536, 70001, 131074, 262147):
+        for size in (65535, 65536, 70001, 131072, 131074, 262147, 1048576):
             for chunk in (8192, 65536, 4099):
                 yield {"size": size, "chunk": chunk}
 
